@@ -11,7 +11,7 @@ partial def hashEpisode (h : IO.FS.Stream) (I : Inst) (s : HSt I) : IO (Option S
   if line.isEmpty then return none
   let toks := splitLine line
   match toks with
-  | "S" :: _ | ["F"] =>
+  | "S" :: _ | ["F"] | "SB" :: _ =>
     let (s', out) := hashStep I s toks
     IO.println out
     hashEpisode h I s'
